@@ -24,6 +24,7 @@ fn main() {
 		"c04t" => props::c04t::main(&args[2..]),
 		"c10" => props::c10::main(&args[2..]),
 		"c14" => props::c14::main(&args[2..]),
+		"c14a" => props::c14a::main(&args[2..]),
 		"c15" => props::c15::main(&args[2..]),
 		"c15child" => props::c15::child_main(&args[2..]),
 		"c05" => props::c05::main(&args[2..]),
